@@ -103,13 +103,17 @@ theorem tableRule_fail' (props : Bool) (c c0 : Cur) (bs : List Str) (hb : cBefor
     tableRule props c = .fail := by
   unfold tableRule; simp only [bind, pbind, hb, hk]
 
-/-- the reference rule (block form) on `refTextP`, after the blank lines before it -/
-theorem refRule_okP (c c0 : Cur) (r : RText) (post : Str) (Q : Cur → Prop)
-    (hb : cBefore c = .ok [] c0) (hc : c0.rest = refTextP r post) (hp : c0.pastEnd = false) (hok : RTextOK r)
+/-- what follows the keyword of a reference in block form -/
+def refAfterKw (r : RText) (post : Str) : Str :=
+  ' ' :: '{' :: '\n' :: ' ' :: ' ' :: ' ' :: ' ' ::
+    sideText r.t1 r.c1 (' ' :: (r.kind.sym ++ ' ' :: sideText r.t2 r.c2 ('\n' :: '}' :: post)))
+
+/-- the reference rule (block form) once its keyword - in whatever letter case - has been read -/
+theorem refRule_from (c c0 c1 : Cur) (r : RText) (post : Str) (Q : Cur → Prop)
+    (hb : cBefore c = .ok [] c0) (hk : clit "ref" c0 = .ok () c1) (hr1 : c1.rest = refAfterKw r post)
+    (hp1 : c1.pastEnd = false) (hok : RTextOK r)
     (hend : ∀ c7 : Cur, c7.rest = post → c7.pastEnd = false → ∃ c9, (alt lineEnd stringEnd) c7 = .ok () c9 ∧ Q c9) :
     ∃ c9, refRule c = .ok (refBp r) c9 ∧ Q c9 := by
-  have hN : Next c0 'R' _ := skipWs_rest_head c0 'R' _ (by rw [hc]; rfl) (by decide)
-  obtain ⟨c1, hk, hr1, hp1⟩ := clit_ok "ref" c0 ['R', 'e', 'f'] _ hN (by decide) (by simp [startsWithCaseless]; decide) hp
   -- `Ref {`: no name, no colon
   have hN1 : Next c1 '{' _ := skipWs_rest_spaces c1 1 '{' _ (by rw [hr1]; rfl) (by decide)
   have hnm : opt name c1 = .ok none c1 := by
@@ -143,6 +147,15 @@ theorem refRule_okP (c c0 : Cur) (r : RText) (post : Str) (Q : Cur → Prop)
     simp only [bind, pbind, hb, hk, hs1, hnm, hbr, hs2, cut, hbody, hs4, hcl, hend9, pure, ppure]
   unfold refRule alt
   simp only [hshort, hlong]
+
+/-- the reference rule (block form) on `refTextP`, after the blank lines before it -/
+theorem refRule_okP (c c0 : Cur) (r : RText) (post : Str) (Q : Cur → Prop)
+    (hb : cBefore c = .ok [] c0) (hc : c0.rest = refTextP r post) (hp : c0.pastEnd = false) (hok : RTextOK r)
+    (hend : ∀ c7 : Cur, c7.rest = post → c7.pastEnd = false → ∃ c9, (alt lineEnd stringEnd) c7 = .ok () c9 ∧ Q c9) :
+    ∃ c9, refRule c = .ok (refBp r) c9 ∧ Q c9 := by
+  have hN : Next c0 'R' _ := skipWs_rest_head c0 'R' _ (by rw [hc]; rfl) (by decide)
+  obtain ⟨c1, hk, hr1, hp1⟩ := clit_ok "ref" c0 ['R', 'e', 'f'] _ hN (by decide) (by simp [startsWithCaseless]; decide) hp
+  exact refRule_from c c0 c1 r post Q hb hk hr1 hp1 hok hend
 
 /-! ### the references part of a document -/
 
